@@ -227,6 +227,9 @@ impl From<HttpResponse> for crate::ResponseAsync {
     fn from(effect_response: HttpResponse) -> Self {
         let mut res = http_types::Response::new(effect_response.status);
         res.set_body(effect_response.body);
+        // `set_body` fills in a content type of its own (application/octet-stream);
+        // the response should carry the headers the shell sent and no others
+        res.remove_header(http_types::headers::CONTENT_TYPE);
         for header in effect_response.headers {
             res.append_header(header.name.as_str(), header.value);
         }
